@@ -10,6 +10,7 @@ writer before the error must be a prefix of the values written.
 import json
 import os
 import random
+import time
 
 import codeclab
 import modelgen
@@ -17,7 +18,7 @@ import streamcorr
 import vlib
 from checks.c01 import _files, _errclass
 
-THEOREMS = ["Yardl.C16.value_prefix_never_decodes", "Yardl.C16.body_prefix_never_decodes",
+THEOREMS = ["Yardl.C16.old_version_prefix_never_decodes", "Yardl.C16.value_prefix_never_decodes", "Yardl.C16.body_prefix_never_decodes",
             "Yardl.C16.delivered_values_are_written", "Yardl.C16.reader_byte_cut",
             "Yardl.C16.reader_var64_cut", "Yardl.C16.reader_var32_cut", "Yardl.C16.reader_bytes_cut",
             "Yardl.C16.verify_finished_iff", "Yardl.C16.py_reader_byte", "Yardl.C16.py_reader_fixed", "Yardl.C16.py_reader_varint",
@@ -44,12 +45,17 @@ def run(report, tier, seed):
 
         def bad(kind, lang, detail):
             report.violation(f"stream:{kind}:{lang}", dict(detail, theorem_or_correspondence=f"CIS model vs {lang} runtime ({kind})"), "")
+        t0 = time.time()
         streamcorr.reader_corr(report, sd, lean, rng, [10, 11, 16, 64], 25 if quick else 1500, 7, bad, truncate="all")
         sd.close()
+        report.extra.setdefault("phase_seconds", {})["stream-models"] = round(time.time() - t0, 1)
+        t0 = time.time()
         _witnesses(report, sc, lean)
         # the NDJSON format: every byte cut through the generated NDJSON readers of both languages
         from checks import c16_ndjson
         c16_ndjson.ndjson_cuts(report, sc, ybin, lean, seed, quick)
+        report.extra["phase_seconds"]["witnesses+ndjson"] = round(time.time() - t0, 1)
+        t0 = time.time()
         # (2) generated readers
         gens = [(i, modelgen.Gen(seed * 100019 + i)) for i in range(1 if quick else 20)]
         labs = codeclab.prepare_labs(sc, ybin, gens, ndjson=False, sanitize=not quick)
@@ -62,7 +68,10 @@ def run(report, tier, seed):
                 continue
             report.count("models")
             _cuts(report, lab, lean, rng, quick, seed)
+        report.extra["phase_seconds"]["generated-readers"] = round(time.time() - t0, 1)
+        t0 = time.time()
         _old_version_cuts(report, sc, ybin, lean, rng, quick, seed)
+        report.extra["phase_seconds"]["old-version-cuts"] = round(time.time() - t0, 1)
         lean.close()
 
 
@@ -71,14 +80,17 @@ def _old_version_cuts(report, sc, ybin, lean, rng, quick, seed):
     and drops removed fields, converts changed ones): every cut is an error. The removed fields are the last data of the stream."""
     from checks import c05
     P = lambda p: ["prim", p]
-    old = [["a", P("int32")], ["notes", P("string")], ["samples", ["vec", P("float32"), None]], ["tags", ["vec", P("string"), None]], ["o", ["opt", P("string")]]]
+    fields = {"a": ["a", P("int32")], "notes": ["notes", P("string")], "samples": ["samples", ["vec", P("float32"), None]], "tags": ["tags", ["vec", P("string"), None]],
+              "o": ["o", ["opt", P("string")]], "bytes": ["bytes", ["vec", P("uint8"), None]]}
     chains = []
-    for keep in ([old[0]], [old[0], old[1]], [old[0], old[2]]):
+    # the removed field that is the very last data of the stream: a string, a vector of fixed-size items, a vector of strings, raw bytes, an optional
+    for last in ("notes", "samples", "tags", "bytes", "o"):
+        old = [fields[x] for x in ("a", "o", "samples", "tags", "bytes", "notes") if x != last] + [fields[last]]
         steps = lambda: [["s", ["ref", "R"], True], ["footer", ["ref", "R"], False]]
-        chains.append((f"c16:removed-trailing-fields-{len(chains)}", [c05._version([["rec", old, "R"]], steps()), c05._version([["rec", keep, "R"]], steps())]))
+        chains.append((f"c16:removed-trailing-field-{last}", [c05._version([["rec", old, "R"]], steps()), c05._version([["rec", [fields["a"]], "R"]], steps())]))
     inproc = vlib.build_go_harness(sc, "inproc")
     import modelgen as mg
-    for j, fixed in enumerate(chains if not quick else chains[:2]):
+    for j, fixed in enumerate(chains if not quick else chains[:3]):
         lab = c05.Chain(sc, ybin, inproc, seed, 5000 + j, fixed=fixed)
         lab.prepare()
         if lab.err:
@@ -86,13 +98,23 @@ def _old_version_cuts(report, sc, ybin, lean, rng, quick, seed):
             continue
         g = mg.Gen(seed * 31 + j)
         oldp = lab.protos[0]
-        for k in range(2 if quick else 6):
+        for k in range(1 if quick else 6):
             vals = g.gen_step_vals(oldp)
             if k == 0:
                 # a long removed string at the very end (longer than the reader's buffer when k == 0 and not quick)
+                # the last field is long (longer than the reader's buffer on the thorough tier)
+                big = 70000 if not quick else 300
                 for v in vals:
                     if v[0] == "single" and v[1][0] == "rec":
-                        v[1][1][1] = ["s", ("n" * (70000 if not quick else 300)).encode().hex()]     # field `notes`
+                        lastty = oldp[-1]["ty"]
+                        fl = lastty[1] if lastty[0] == "rec" else None
+                        name = fixed[0].rsplit("-", 1)[1]
+                        if name == "notes":
+                            v[1][1][-1] = ["s", ("n" * big).encode().hex()]
+                        elif name == "tags":
+                            v[1][1][-1] = ["list", [["s", b"tag".hex()] for _ in range(big // 10)]]
+                        elif name == "o":
+                            v[1][1][-1] = ["some", ["s", ("o" * big).encode().hex()]]
             parts = [g.gen_partition(len(v[1])) if v[0] == "stream" else [] for v in vals]
             enc = bytes.fromhex(lean.ask({"op": "enc_proto", "proto": oldp, "parts": parts, "vals": vals, "schema": lab.schemas[0]})["hex"])
             full_in, full_out = os.path.join(lab.root, f"t{k}.in"), os.path.join(lab.root, f"t{k}.out")
@@ -102,7 +124,8 @@ def _old_version_cuts(report, sc, ybin, lean, rng, quick, seed):
                 report.violation("cpp:old-version:complete-stream-rejected", {"chain": fixed[0], "vals": vals, "stderr": err[-500:], "seed": seed}, "")
                 continue
             n = len(enc)
-            cuts = sorted(set(list(range(max(0, n - 400), n)) + [rng.randrange(n) for _ in range(40)] + [n - 1 - 4096 * i for i in range(1, 20) if n - 1 - 4096 * i > 0]))
+            tail = 90 if quick else 400
+            cuts = sorted(set(list(range(max(0, n - tail), n)) + [rng.randrange(n) for _ in range(15 if quick else 40)] + [n - 1 - 4096 * i for i in range(1, 20) if n - 1 - 4096 * i > 0]))
             for cut in cuts:
                 cin, cout = os.path.join(lab.root, f"t{k}.cut"), os.path.join(lab.root, f"t{k}.cout")
                 open(cin, "wb").write(enc[:cut])
@@ -157,7 +180,11 @@ def _cuts(report, lab, lean, rng, quick, seed):
     protos = list(lab.protos.items())
     for pname, pj in protos:
         nstreams = sum(1 for s in pj if s["stream"])
-        variants = ["small", "big"] if nstreams else ["small"]
+        # (quick tier: the >64 KiB variant for the first two protocols with a stream of each package)
+        n_big = getattr(lab, "_n_big", 0)
+        variants = ["small", "big"] if nstreams and (not quick or n_big < 2) else ["small"]
+        if "big" in variants:
+            lab._n_big = n_big + 1
         for variant in variants:
             if variant == "big":
                 vals = g.gen_step_vals(pj, stream_len=0)
